@@ -1,8 +1,8 @@
 SPECIFICATION Spec
 CONSTANTS Kinds = {"buf", "hmeta", "reply", "rawdata", "geninfo", "cxxref", "bare"}
-  NH = 3 NObj = 2 Max = 5 MaxExtra = 1 MaxTries = 1 AsFound = FALSE
-CONSTRAINT QuickBound
+  TextLens = {0, 249, 250, 1000}
+  NH = 2 NObj = 2 Max = 4 MaxExtra = 1 MaxTries = 2 AsFound = FALSE
 VIEW View
 INVARIANTS TypeOK AliveIffReferenced CountExact NoDangling ObsAgrees
-PROPERTIES RefusedUnchanged DestroyedOnce NoResurrection ReplaceOnce
+PROPERTIES RefusedUnchanged DestroyedOnce NoResurrection ReplaceOnce NewReferentSurvives TeardownClears
 CHECK_DEADLOCK FALSE
